@@ -49,6 +49,7 @@ type Violation struct {
 	Vars     map[string]uint64 `json:"vars"`
 	Bytes    map[string][]int  `json:"bytes,omitempty"`
 	Trace    []Dec             `json:"decisions"`
+	Sched    []int             `json:"schedule,omitempty"` // running thread after every scheduling event
 	PathCond string            `json:"path_condition_sample,omitempty"`
 	Where    string            `json:"where,omitempty"`
 }
@@ -123,6 +124,7 @@ type Path struct {
 	violations  []*Violation
 	fresh       bool // true once the path passed its prefix
 	assertPrefer *Term // optional extra conjunct tried first when looking for a counterexample
+	sched        []int // thread that runs after each scheduling event (yield / block / exit), for native replay
 }
 
 func (p *Path) pos() int { return len(p.trace) }
@@ -428,6 +430,7 @@ func (p *Path) recordViolation(name, findingName string, vals []uint64, where st
 		v.Bytes[n] = bs
 	}
 	v.Trace = append([]Dec{}, p.trace...)
+	v.Sched = append([]int{}, p.sched...)
 	if len(p.pc) > 0 {
 		s := p.pc[len(p.pc)-1].String()
 		if len(s) > 300 {
@@ -543,27 +546,26 @@ func (p *Path) switchTo(from, to *Thread) {
 	p.cur = from
 }
 
-// yield is called before every visible operation.
+// yield is called before every visible operation. Every call is one
+// scheduling event (recorded even when no switch is possible, so that the
+// native replay can count events one to one).
 func (p *Path) yield(th *Thread) {
 	if p.over {
 		panic(pathEnd{"over"})
 	}
-	if len(p.threads) <= 1 {
-		return
+	target := th
+	if len(p.threads) > 1 && p.preempts < p.eng.cfg.Preempt {
+		if others := p.enabled(th); len(others) > 0 {
+			if k := p.choose(1 + len(others)); k > 0 {
+				target = others[k-1]
+			}
+		}
 	}
-	others := p.enabled(th)
-	if len(others) == 0 {
-		return
+	p.sched = append(p.sched, target.id)
+	if target != th {
+		p.preempts++
+		p.switchTo(th, target)
 	}
-	if p.preempts >= p.eng.cfg.Preempt {
-		return
-	}
-	k := p.choose(1 + len(others))
-	if k == 0 {
-		return
-	}
-	p.preempts++
-	p.switchTo(th, others[k-1])
 }
 
 // block parks th until cond() holds.
@@ -582,6 +584,7 @@ func (p *Path) block(th *Thread, cond func() bool) {
 			p.deadlock(sb.String())
 		}
 		k := p.choose(len(others))
+		p.sched = append(p.sched, others[k].id)
 		p.switchTo(th, others[k])
 		th.waiting = nil
 	}
@@ -620,6 +623,7 @@ func (p *Path) threadExit(th *Thread) {
 	}
 	defer func() { recover() }()
 	k := p.choose(len(others))
+	p.sched = append(p.sched, others[k].id)
 	p.cur = others[k]
 	others[k].resume <- struct{}{}
 }
